@@ -746,10 +746,10 @@ func (w *world) facts(msgs []sdk.Msg, signers []int) (coq []string, js []string)
 		}
 		pwok := !usepw || rec.Confirmed
 		to, _ := sdk.AccAddressFromBech32(rec.Transaction.ToAddress)
-		coq = append(coq, fmt.Sprintf("FCustody %s %s %s %s %d %d %d %s %s %s", hx.Z(w.id(target.String())), hx.Z(w.id(to.String())),
-			coinsZ(rec.Transaction.Amount), coinsZ(rec.Transaction.Reward), legit, n, mode, hx.B(enabled), hx.B(pwok), hx.B(callerIs && !voted)))
-		js = append(js, fmt.Sprintf("custody request of %s to %s amount %s reward %s: approvals by listed custodians %d of %d, mode %d%%, enabled %v, password ok %v, caller is a listed custodian who has not voted %v",
-			w.name(w.id(target.String())), w.name(w.id(to.String())), rec.Transaction.Amount, rec.Transaction.Reward, legit, n, mode, enabled, pwok, callerIs && !voted))
+		coq = append(coq, fmt.Sprintf("FCustody %s %s %s %s %d %d %d %s %s %s %d", hx.Z(w.id(target.String())), hx.Z(w.id(to.String())),
+			coinsZ(rec.Transaction.Amount), coinsZ(rec.Transaction.Reward), legit, n, mode, hx.B(enabled), hx.B(pwok), hx.B(callerIs && !voted), rec.Votes))
+		js = append(js, fmt.Sprintf("custody request of %s to %s amount %s reward %s: approvals by listed custodians %d of %d (votes on record %d), mode %d%%, enabled %v, password ok %v, caller is a listed custodian who has not voted %v",
+			w.name(w.id(target.String())), w.name(w.id(to.String())), rec.Transaction.Amount, rec.Transaction.Reward, legit, n, rec.Votes, mode, enabled, pwok, callerIs && !voted))
 	}
 	for _, m := range msgs {
 		switch x := m.(type) {
